@@ -156,6 +156,20 @@ theorem history_then_begin_restores_sp (md : Module) {a c : Vm} (h : History a c
 example : History (Vm.new 10 16) (failEpilogue true (Vm.new 10 16).sp { Vm.new 10 16 with running := 3 }) :=
   .cons (.fail _ { Vm.new 10 16 with running := 3 } (by decide)) (.nil _)
 
+/-- non-vacuity of `Call.ok`: on a fresh machine the entry stub's MARK followed at once by RET and HALT is a
+successful call, and the one-call history built from it ends at the height it started at -/
+example : ∃ b, Call (Vm.new 10 16) b ∧ History (Vm.new 10 16) b ∧ b.sp = (Vm.new 10 16).sp := by
+  have hs0 : StackOk (Vm.new 10 16) := by simp [StackOk, Vm.new]
+  have h0 : -1 ≤ (Vm.new 10 16).sp := by decide
+  have h1 : (Vm.new 10 16).sp + 5 < (Vm.new 10 16).stackSize := by decide
+  obtain ⟨vm1, hm, mp⟩ := markP_spec (Vm.new 10 16) 7 hs0 h0 h1
+  have hsp0 : 0 ≤ vm1.sp := by rw [mp.sp]; omega
+  have hsp : vm1.sp < vm1.stackSize := by rw [mp.sp, mp.size]; exact h1
+  obtain ⟨vm3, hr, _⟩ := mark_ret_roundtrip (Vm.new 10 16) vm1 vm1 7 hs0 h0 h1 hm mp.ok mp.size mp.fp
+    (fun _ _ _ => rfl) hsp0 hsp
+  have hc := Call.ok (Vm.new 10 16) vm1 vm1 vm3 7 hs0 h0 h1 hm mp.ok mp.size mp.fp (fun _ _ _ => rfl) hsp0 hsp hr
+  exact ⟨_, hc, .cons hc (.nil _), call_restores_sp hc⟩
+
 /-! ### compile side: no state survives from one compilation into the next -/
 
 /-- the translator recognised every shape it met -/
